@@ -83,7 +83,7 @@ fn main() {
                 0
             } else {
                 hook::ensure_installed();
-                let out = oracle::run_pipeline_case(&plan.scenario, &plan.sched, None, &plan.want);
+                let out = checks::evaluate_case(&args[2], &plan.scenario, &plan.sched, None, &plan.want);
                 println!("group={} summary={}", plan.group, out.summary);
                 println!("stats: decisions={} steps={} probes={:?}", out.stats.decisions, out.stats.steps, out.stats.probes);
                 for f in &out.findings {
